@@ -39,12 +39,15 @@ pub struct SlCase {
     pub link_len: Vec<f64>,
     /// global speed zones (start, end, speed)
     pub zones: Vec<(f64, f64, f64)>,
-    /// 0 flat, 1 +1.5 %, 2 -1.5 %, 3 vee
+    /// 0 flat, 1 +1.5 %, 2 -1.5 %, 3 vee, 4 -1.5 % easing to -0.9 %, 5 -0.3/-1.5/-0.9 %/flat
     pub grade: u8,
     pub head_end: bool,
     pub train: TrainSpec,
     pub t0: f64,
     pub mode: Mode,
+    /// friction-brake ramp-up time in s (None: what TrainSimBuilder hard-codes, 0 s = full force at once)
+    #[serde(default)]
+    pub brake_ramp: Option<f64>,
 }
 
 fn elev_at(grade: u8, x: f64) -> f64 {
@@ -52,13 +55,42 @@ fn elev_at(grade: u8, x: f64) -> f64 {
         0 => 100.0,
         1 => 100.0 + 0.015 * x,
         2 => 100.0 - 0.015 * x,
-        _ => {
+        3 => {
             if x <= TOTAL / 2.0 {
                 100.0 - 0.015 * x
             } else {
                 100.0 - 0.015 * (TOTAL / 2.0) + 0.015 * (x - TOTAL / 2.0)
             }
         }
+        4 => {
+            // steep downgrade easing off while still clearly downhill: -1.5 % then -0.9 %
+            if x <= TOTAL / 2.0 {
+                100.0 - 0.015 * x
+            } else {
+                100.0 - 0.015 * (TOTAL / 2.0) - 0.009 * (x - TOTAL / 2.0)
+            }
+        }
+        _ => {
+            // -0.3 %, -1.5 %, -0.9 %, flat (breaks at 750 / 1500 / 2250 m)
+            let seg = [(0.0, -0.003), (750.0, -0.015), (1500.0, -0.009), (2250.0, 0.0)];
+            let mut e = 100.0;
+            for (k, (x0, g)) in seg.iter().enumerate() {
+                let x1 = if k + 1 < seg.len() { seg[k + 1].0 } else { f64::INFINITY };
+                if x > *x0 {
+                    e += g * (x.min(x1) - x0);
+                }
+            }
+            e
+        }
+    }
+}
+
+/// elevation breakpoints of a grade kind (path offsets)
+fn grade_breaks(grade: u8) -> Vec<f64> {
+    match grade {
+        3 | 4 => vec![TOTAL / 2.0],
+        5 => vec![750.0, 1500.0, 2250.0],
+        _ => vec![],
     }
 }
 
@@ -72,8 +104,10 @@ pub fn build_network(c: &SlCase) -> Network {
         f.next = if i + 1 < n { i + 2 } else { 0 };
         // elevation points: link ends + the vee bottom if inside
         let mut pts = vec![(0.0, elev_at(c.grade, base))];
-        if c.grade == 3 && base < TOTAL / 2.0 && TOTAL / 2.0 < base + len {
-            pts.push((TOTAL / 2.0 - base, elev_at(c.grade, TOTAL / 2.0)));
+        for b in grade_breaks(c.grade) {
+            if base < b && b < base + len {
+                pts.push((b - base, elev_at(c.grade, b)));
+            }
         }
         pts.push((len, elev_at(c.grade, base + len)));
         f.elevs = pts;
@@ -97,7 +131,11 @@ pub fn build_sim(c: &SlCase, net: &Network) -> Result<SpeedLimitTrainSim, String
     let n = c.link_len.len();
     let lm = location_map(&[("A", vec![1]), ("B", vec![n])]);
     let b = builder(&c.train, Some(("A", "B")), Some(InitTrainState::new(Some(c.t0 * uc::S), None, None)), Some(1));
-    b.make_speed_limit_train_sim(&lm, Some(1), None, None).map_err(|e| format!("{e:#}"))
+    let mut sim = b.make_speed_limit_train_sim(&lm, Some(1), None, None).map_err(|e| format!("{e:#}"))?;
+    if let Some(r) = c.brake_ramp {
+        sim.fric_brake.ramp_up_time = r * uc::S;
+    }
+    Ok(sim)
 }
 
 /// reference enforced limit at front position x (posted restrictions, tail-end extended by train length, speed_max);
@@ -127,6 +165,8 @@ pub struct Run {
     pub validated: bool,
     pub machinery: Option<String>,
     pub err_full: String,
+    /// friction brake behaviour seen: bit0 applied, bit1 reduced while still braking
+    pub fric: u8,
 }
 
 fn panic_class(msg: &str) -> String {
@@ -260,7 +300,7 @@ fn braking_point_checks(sim: &SpeedLimitTrainSim, r: &Refs, checks: &mut u64, f:
 }
 
 pub fn execute(c: &SlCase, which: &str) -> Run {
-    let mut run = Run { fails: vec![], steps: 0, checks: 0, outcome: String::new(), sig: String::new(), validated: false, machinery: None, err_full: String::new() };
+    let mut run = Run { fails: vec![], steps: 0, checks: 0, outcome: String::new(), sig: String::new(), validated: false, machinery: None, err_full: String::new(), fric: 0 };
     let net = build_network(c);
     let n = c.link_len.len();
     let tp = train_config(&c.train).make_train_params().unwrap();
@@ -287,6 +327,15 @@ pub fn execute(c: &SlCase, which: &str) -> Run {
         }
         run.checks += checks;
         run.steps += 1;
+        if s.fric_brake.state.force.value > 0.0 {
+            run.fric |= 1;
+        }
+        if s.fric_brake.state.force.value < p.fric_brake.state.force.value && s.state.pwr_whl_out.value <= 0.0 && s.fric_brake.state.force.value > 0.0 {
+            run.fric |= 2;
+        }
+        if p.fric_brake.state.force.value > 0.0 && s.fric_brake.state.force.value > 0.0 && s.state.pwr_whl_out.value == 0.0 {
+            run.fric |= 4;
+        }
     };
     let cond = |s: &SpeedLimitTrainSim| s.state.offset < s.offset_end() - 1000.0 * uc::FT || (s.state.offset < s.offset_end() && s.state.speed.value != 0.0);
     let res: Result<Result<(), String>, String> = match &c.mode {
@@ -459,7 +508,7 @@ pub fn execute(c: &SlCase, which: &str) -> Run {
     // keep one failure per key
     run.fails.sort_by(|a, b| a.0.cmp(&b.0));
     run.fails.dedup_by(|a, b| a.0 == b.0);
-    run.sig = format!("{}:{}:g{}:{}:n{}:{:?}", run.outcome, window_class(c), c.grade, if c.head_end { "head" } else { "tail" }, c.link_len.len(), std::mem::discriminant(&c.mode));
+    run.sig = format!("{}:f{}:{}:g{}:{}:n{}:{:?}", run.outcome, run.fric, window_class(c), c.grade, if c.head_end { "head" } else { "tail" }, c.link_len.len(), std::mem::discriminant(&c.mode));
     run
 }
 
@@ -484,12 +533,14 @@ pub fn trains() -> Vec<TrainSpec> {
     vec![
         TrainSpec { n_loaded: 10, n_empty: 0, davis: false, mass_override: None, length_override: None, consist: 2 },
         TrainSpec { n_loaded: 30, n_empty: 30, davis: true, mass_override: None, length_override: None, consist: 3 },
+        // heavy train, weak dynamic brake: 60 loaded cars behind one conventional locomotive
+        TrainSpec { n_loaded: 60, n_empty: 0, davis: false, mass_override: None, length_override: None, consist: 0 },
     ]
 }
 
 pub fn rule(which: &str, tier: Tier) -> String {
     format!(
-        "E-SHAPE: every 3-zone restriction profile over cut points {:?} m of a 3 km route with speeds {:?} m/s (270 patterns; contains the 100-300 m higher-speed windows between slower sections) x head/tail-end sets x grade in {{flat, +1.5 %, -1.5 %, vee}} x trains {{10 loaded cars + conv/BEL, 60 mixed cars + shipped 5-unit consist}} x departure time in {{0, 137.5 s}} on (a) one 3 km link, whole path; and on a 3 x 1 km chain{}: (b) link-by-link extension when the front is within {{8047 m (5 mi), 1000 m, 25 m}} of the end of authority, (c) the real walk_timed_path with every single entry delayed by {{0, 60, 600}} s, (d) make_est_times (chain extended by a 9 km link, because it only moves the train while > 5 mi of path lie ahead). One real SpeedLimitTrainSim run per element, stepped with the real step(); oracle {} on every step (every saved row for walk_timed_path). distinct_nontrivial = distinct (outcome, window class, grade, head/tail, links, mode) signatures.",
+        "E-SHAPE: every 3-zone restriction profile over cut points {:?} m of a 3 km route with speeds {:?} m/s (270 patterns; contains the 100-300 m higher-speed windows between slower sections) x head/tail-end sets x grade in {{flat, +1.5 %, -1.5 %, vee, -1.5 % easing to -0.9 %, -0.3/-1.5/-0.9 %/flat}} x trains {{10 loaded cars + conv/BEL, 60 mixed cars + shipped 5-unit consist, 60 loaded cars + ONE locomotive (downgrades only: friction brakes carry the braking)}} x departure time in {{0, 137.5 s}} on (a) one 3 km link, whole path; and on a 3 x 1 km chain{}: (b) link-by-link extension when the front is within {{8047 m (5 mi), 1000 m, 25 m}} of the end of authority, (c) the real walk_timed_path with every single entry delayed by {{0, 60, 600}} s, (d) make_est_times (chain extended by a 9 km link, because it only moves the train while > 5 mi of path lie ahead). One real SpeedLimitTrainSim run per element, stepped with the real step(); oracle {} on every step (every saved row for walk_timed_path). distinct_nontrivial = distinct (outcome, window class, grade, head/tail, links, mode) signatures.",
         CUTS,
         SPEEDS,
         if tier.is_thorough() { " (all patterns)" } else { " (every 3rd pattern)" },
@@ -502,28 +553,39 @@ pub fn cases(tier: Tier) -> Vec<SlCase> {
     let pats = zone_patterns(tier);
     for (pi, z) in pats.iter().enumerate() {
         for head in [true, false] {
-            for grade in 0..4u8 {
+            for grade in 0..6u8 {
                 for (ti, train) in trains().into_iter().enumerate() {
+                    // the heavy train with a single locomotive is there for the downgrades (friction brakes carry most
+                    // of the braking); on the flat and the upgrades it only repeats what the other trains show
+                    if ti == 2 && !(grade == 2 || grade >= 4) {
+                        continue;
+                    }
                     let t0 = if (pi + ti) % 2 == 0 { 0.0 } else { 137.5 };
-                    v.push(SlCase { sl: true, link_len: vec![TOTAL], zones: z.clone(), grade, head_end: head, train, t0, mode: Mode::Whole });
+                    v.push(SlCase { sl: true, link_len: vec![TOTAL], zones: z.clone(), grade, head_end: head, train, t0, mode: Mode::Whole, brake_ramp: None });
+                    if ti == 2 {
+                        // the same heavy train with a 10 s friction-brake ramp (TrainSimBuilder hard-codes 0 s; the field
+                        // is public).  Longer ramps are NOT generated: from about 15 s the unchanged code already runs
+                        // into its overspeed assert when the limit is reached on a downgrade (DESIGN, C03)
+                        v.push(SlCase { sl: true, link_len: vec![TOTAL], zones: z.clone(), grade, head_end: head, train, t0, mode: Mode::Whole, brake_ramp: Some(10.0) });
+                    }
                     // multi-link schedules
                     if tier.is_thorough() || pi % 3 == 0 {
                         let chain = vec![1000.0, 1000.0, 1000.0];
                         for th in [8047.0, 1000.0, 25.0] {
-                            v.push(SlCase { sl: true, link_len: chain.clone(), zones: z.clone(), grade, head_end: head, train, t0, mode: Mode::LinkByLink { threshold: th } });
+                            v.push(SlCase { sl: true, link_len: chain.clone(), zones: z.clone(), grade, head_end: head, train, t0, mode: Mode::LinkByLink { threshold: th }, brake_ramp: None });
                         }
                         if ti == 0 {
-                            v.push(SlCase { sl: true, link_len: chain.clone(), zones: z.clone(), grade, head_end: head, train, t0, mode: Mode::Timed { delayed: 0, delay: 0.0 } });
+                            v.push(SlCase { sl: true, link_len: chain.clone(), zones: z.clone(), grade, head_end: head, train, t0, mode: Mode::Timed { delayed: 0, delay: 0.0 }, brake_ramp: None });
                             for delayed in [1usize, 2] {
                                 for delay in [60.0, 600.0] {
-                                    v.push(SlCase { sl: true, link_len: chain.clone(), zones: z.clone(), grade, head_end: head, train, t0, mode: Mode::Timed { delayed, delay } });
+                                    v.push(SlCase { sl: true, link_len: chain.clone(), zones: z.clone(), grade, head_end: head, train, t0, mode: Mode::Timed { delayed, delay }, brake_ramp: None });
                                 }
                             }
                             if grade % 2 == 0 {
                                 // make_est_times only moves the train while more than 5 mi of path lie ahead: add a 9 km link
                                 let mut zl = z.clone();
                                 zl.push((TOTAL, TOTAL + 9000.0, 15.0));
-                                v.push(SlCase { sl: true, link_len: vec![1000.0, 1000.0, 1000.0, 9000.0], zones: zl, grade, head_end: head, train, t0, mode: Mode::EstTimes });
+                                v.push(SlCase { sl: true, link_len: vec![1000.0, 1000.0, 1000.0, 9000.0], zones: zl, grade, head_end: head, train, t0, mode: Mode::EstTimes, brake_ramp: None });
                             }
                         }
                     }
@@ -582,5 +644,5 @@ pub fn replay(which: &str, case: &Value) -> ReplayOutcome {
         Err(e) => return ReplayOutcome { violations: vec![("bad-replay-file".into(), e.to_string())], observation: String::new() },
     };
     let run = execute(&c, which);
-    ReplayOutcome { violations: run.fails, observation: format!("{} steps={} {}", run.outcome, run.steps, run.err_full.chars().take(600).collect::<String>()) }
+    ReplayOutcome { violations: run.fails, observation: format!("{} steps={} fric={} {}", run.outcome, run.steps, run.fric, run.err_full.chars().take(600).collect::<String>()) }
 }
